@@ -41,12 +41,26 @@ def _names_of(pred, TRr, notes):
         for c in pred[1]:
             if c == linked:
                 continue
+            # a test on the VALUE of the correlation id (other than 'has no id': != -1 / >= 0) drops valid ids: id 0 is one
+            if isinstance(c, tuple) and c and c[0] in ("cmp", "eq", "ne") and T.col(TRr, "correlation") in T.find(c, lambda s_: s_[0] == "col") and not T.find(c, lambda s_: s_[0] == "col" and s_ != T.col(TRr, "correlation")):
+                try:
+                    tt = {v: bool(T.evaluate(c, lambda leaf, v=v: v if leaf == T.col(TRr, "correlation") else (_ for _ in ()).throw(T.Unknown(leaf)))) for v in (-1, 0, 1, 7)}
+                except T.Unknown:
+                    return None
+                if tt in ({-1: False, 0: True, 1: True, 7: True}, {-1: True, 0: True, 1: True, 7: True}):
+                    continue
+                notes.append(f"the correlation ids are filtered by their value ({T.show(c)[:60]}): a pair linked by id 0 is dropped")
+                continue
             sub = _names_of(c, TRr, notes)
             if sub is None or sub == "TRUTHY":
                 return sub
             out |= sub
         return out
     for d in (pred[1] if pred[0] == "or" else (pred,)):
+        # [x for x in (ids...) if x] written out per element: (truthy(id) & name == id)
+        if d[0] == "and" and any(isinstance(c_, tuple) and c_ and c_[0] == "truthy" and T.find(c_, lambda s_: s_[0] == "call" and str(s_[1]).endswith(".get")) for c_ in d[1]):
+            notes.append("launch ids are filtered by truthiness: symbol id 0 is a valid id and would be dropped")
+            return "TRUTHY"
         if d[0] == "in" and d[1] == NAME and d[2][0] == "set":
             for mem in d[2][1]:
                 n = idname(mem)
@@ -168,7 +182,7 @@ def run(db, chk) -> None:
                         else:
                             names |= n
                     want = LAUNCH | (MEMORY if mem else set())
-                    verdict = (names == want) if bad is False else (False if bad == "truthy" or notes else None)
+                    verdict = (names == want and not notes) if bad is False else (False if bad == "truthy" or notes else None)
                     chk.ob(rule, f"{tag} launch-name set", verdict, where, found=sorted(names) + notes, accepted=sorted(want),
                            why="kernel launches, plus memcpy/memset launches exactly when requested; ids looked up with default None and not filtered by truthiness")
                 else:
